@@ -73,6 +73,23 @@ CLAIMED["C16"] = (
     "Lean 4 proof (refinement invariant over histories) with differential correspondence of the two real APIs",
     "DESIGN.md §5 C16, §10.2")
 
+CLAIMED["C12"] = (
+    "Lean 4 theorems over a model of Property(observe=…) / cached_property (cache slot, observe handler popping the cache and "
+    "calling trait_property_changed, lazy new value, restore with observers installed before values): the invariant "
+    "'cache = none or cache = g(current heap)' is preserved by every history of mutations, reads, attach/detach, construction and "
+    "copies (induction); every read returns g(heap); a cached getter runs at most once between two relevant changes (potential "
+    "function); a change that alters g delivers exactly one notification with truthful old/new; a raising getter writes no cache "
+    "entry. The observe machinery enters through the explicit interface assumptions ObserveSound / ObserveTight (what C08 "
+    "establishes), each shown necessary by a proved negation witness, as is the observers-before-values order. The source of the "
+    "eight functions/blocks and four call orders the model transcribes is regenerated by a translator on every run and must "
+    "equal the text the model was written against (proof obligation). Correspondence: model and real classes on the same histories "
+    "(original, unpickled, cloned, deep-copied objects).",
+    "Trusted: Lean kernel, axioms propext/Quot.sound only; translator propstate; the firing relation of observe is a parameter "
+    "(instantiated with the from-scratch specification; getter-call counts and notifications are compared with the real code on "
+    "every run); DependsOnly is the user contract; harness. Findings F30 (sibling handler reads before invalidation), F10c-e, F31 are known findings.",
+    "Lean 4 proof (cache invariant by induction over histories) with translated source tie and model-code correspondence",
+    "DESIGN.md §5 C12, §10.2")
+
 NOT_YET = "check not built yet in this round (planned in DESIGN.md §9); not claimed until it exists"
 
 
@@ -120,22 +137,29 @@ def main():
     with open(os.path.join(VERIF, "MANIFEST.json"), "w") as f:
         json.dump(m, f, indent=1)
         f.write("\n")
-    # the library root imports exactly what the claimed checks need, so that
-    # `setup_cmd` pre-builds every proof and driver
+    # The library root imports the property modules of the claimed checks; the
+    # line-protocol drivers (each defines its own `main`, so they cannot be
+    # imported together) are separate build targets of `setup_cmd`.
     import importlib
     import sys
     sys.path.insert(0, os.path.join(VERIF, "harness"))
-    mods = []
+    mods, drivers = [], []
     for p in sorted(CLAIMED):
         pm = importlib.import_module("props." + p.lower())
-        drvs = [getattr(pm, "DRIVER", None)] + list((getattr(pm, "DRIVERS", {}) or {}).values())
-        for mname in list(pm.PROPS_MODULES) + [d[:-5].replace("/", ".") for d in drvs if d]:
+        for mname in pm.PROPS_MODULES:
             if mname not in mods:
                 mods.append(mname)
+        for d in [getattr(pm, "DRIVER", None)] + list((getattr(pm, "DRIVERS", {}) or {}).values()):
+            if d and d[:-5].replace("/", ".") not in drivers:
+                drivers.append(d[:-5].replace("/", "."))
     with open(os.path.join(VERIF, "lean", "TraitsVerif.lean"), "w") as f:
         f.write("-- GENERATED by harness/mkmanifest.py: root of the `TraitsVerif` library.\n")
         for mname in mods:
             f.write("import %s\n" % mname)
+    m["setup_cmd"] = "cd lean && lake build TraitsVerif " + " ".join(drivers)
+    with open(os.path.join(VERIF, "MANIFEST.json"), "w") as f:
+        json.dump(m, f, indent=1)
+        f.write("\n")
 
 
 if __name__ == "__main__":
